@@ -135,3 +135,7 @@ m("C13", ["R26"], B, "if ((n_pos >> bit) & 1) != 0 {", "if ((n_pos >> bit) & 1) 
 m("C13", ["R30"], B, "for bit in 0..(u32::BITS - n_pos.leading_zeros()) {", "for bit in 0..(u32::BITS + 1 - n_pos.leading_zeros()) {", "indexed powi loop shifts by 32 when the top bit is set (i32::MIN)", on="Y0-4")
 m("C05", ["R10", "R10e"], A, "            if i == QUOTIENT_TERMS - 1 {\n                break;\n            }\n            r -= rhs * q[i];\n            i += 1;\n        }\n        renorm3(q[0], q[1], q[2])\n", "            if i == QUOTIENT_TERMS - 2 {\n                break;\n            }\n            r -= rhs * q[i];\n            i += 1;\n        }\n        renorm3(q[0], q[1], q[2])\n", "rolled-up long division stops after two quotient digits", on="Y0-4")
 m("C14", ["R33", "R35"], EX, 'hexf64!("0x1.a61298e1e069cp+0"),  // exp(1/2)^1', 'hexf64!("0x1.a61298e1e069dp+0"),  // exp(1/2)^1', "parallel word tables: one high word of exp(1/2)^k off by one ulp", on="Y1-4")
+m("C08", ["RD"], FR, "    pub fn round(self) -> Self {\n        if libm::modf(self.lo).0 == 0.0 {", "    pub fn round(self) -> Self {\n        let _digits = (self.hi as i32) + 1;\n        if libm::modf(self.lo).0 == 0.0 {", "an integer addition that overflows (and panics in builds with overflow checks) for hi >= 2^31: the form rule reads past the check, RD must not")
+m("C14", ["R36"], EX, "    if n >= 1440 {\n        return None;", "    if n >= 1400 {\n        return None;", "Option-returning table helper gives up (None, then expect panics in exp) inside the range exp reduces to", on="A1-4")
+m("C14", ["R35"], EX, "    Some(match (a > 0, b > 0) {", "    Some(match (a > 0, b > 1) {", "Option-returning table helper drops the exp(1/2) factor for b == 1", on="A1-4")
+m("C20", ["RD", "R54"], SE, "                    .ok_or_else(|| de::Error::invalid_length(1, &self))?;\n                TwoFloat::try_from((hi, lo)).map_err(|_| {\n                    de::Error::invalid_value(Unexpected::Float(lo), &\"non-overlapping low word\")\n                })", "                    .ok_or_else(|| de::Error::invalid_length(1, &self))?;\n                Ok(TwoFloat::try_from((hi, lo)).expect(\"non-overlapping low word\"))", "the sequence visitor panics on an overlapping pair instead of returning an error (explicit panics are left to RD by the form rules)")
